@@ -90,4 +90,13 @@ def parameterize (sqrt acosDeg : S → S) (closeZero : S → Bool)
   let delta := adjust (deltaRaw acosDeg u1x u1y u2x u2y) large sweep
   ⟨rx, ry, cx, cy, theta, delta⟩
 
+/-- `Arc.__init__(start, radius, rotation, large_arc, sweep, end)` up to and including `_parameterize()`: the radii
+are replaced by their absolute values, the flags by `bool(...)` (any non-zero number is `True`), `rot_matrix` is
+`exp(1j·radians(rotation)) = (wx, wy)`; returns the stored radius, the two flags and the derived parameters -/
+def arcInit (sqrt acosDeg : S → S) (closeZero : S → Bool)
+    (sx sy ex ey rx ry wx wy : S) (large sweep : Int) : Params S × Bool × Bool :=
+  let l := decide (large ≠ 0)
+  let s := decide (sweep ≠ 0)
+  (parameterize sqrt acosDeg closeZero sx sy ex ey (SvgVerif.Model.sabs rx) (SvgVerif.Model.sabs ry) wx wy l s, l, s)
+
 end SvgVerif.Model.ArcParam
